@@ -23,23 +23,24 @@ MAP_OPS = [["set", k] for k in KEYS] + [["del", k] for k in (0, 1.0, 2.5)] + [["
 
 BOUNDS = {
     "quick": {"initialisers": {"values": VALS, "max_len": 4, "containers": ["list", "tuple", "iterator", "dict(map)"]},
-              "set_history": {"len": 5, "ops": SET_OPS, "initial": SET_INITS[:2], "len_for_3rd_initial": 4},
-              "map_history": {"len": 4, "ops": MAP_OPS, "initial": MAP_INITS[:2], "len_for_3rd_initial": 3},
-              "probes_after_every_op": {"numeric": KEYS + [3, -0.5], "foreign": list(FOREIGN)},
+              "set_history": {"ops": SET_OPS, "initial": SET_INITS, "len_per_initial": [5, 5, 4]},
+              "map_history": {"ops": MAP_OPS, "initial": MAP_INITS, "len_per_initial": [4, 4, 3]},
+              "probes": {"numeric": KEYS + [3, -0.5], "foreign": list(FOREIGN)},
               "random": {"count": 3000, "len": "8..40", "values": "ints -3..6, halves, -0.0, +-10**20, 1e300, -1e308"}},
     "thorough": {"initialisers": {"values": VALS, "max_len": 6, "containers": ["list", "tuple", "iterator", "dict(map)"]},
-                 "set_history": {"len": 6, "ops": SET_OPS, "initial": SET_INITS, "len_for_3rd_initial": 5},
-                 "map_history": {"len": 5, "ops": MAP_OPS, "initial": MAP_INITS, "len_for_3rd_initial": 5},
-                 "probes_after_every_op": {"numeric": KEYS + [3, -0.5], "foreign": list(FOREIGN)},
+                 "set_history": {"ops": SET_OPS, "initial": SET_INITS, "len_per_initial": [5, 6, 5]},
+                 "map_history": {"ops": MAP_OPS, "initial": MAP_INITS, "len_per_initial": [5, 5, 4]},
+                 "probes": {"numeric": KEYS + [3, -0.5], "foreign": list(FOREIGN)},
                  "random": {"count": 60000, "len": "8..60", "values": "as quick"}},
 }
 RULE = ("Initialisers: every sequence over the value alphabet up to max_len (empty, unsorted, repeats, 1 vs 1.0) for "
         "SortedSet (list/tuple/iterator) and SortedMap (pair list / pair iterator / dict; values = positions so that "
         "'later pairs win' is visible). Histories: all operation sequences over the stated alphabets up to the stated "
         "length, shortest first, from each initial content; stored values are unique per position. After EVERY "
-        "operation: iteration strictly ascending and == sorted(reference), len, membership / lookup / get of every "
-        "numeric probe, every foreign probe -> False / KeyError / default with the content unchanged. Then a seeded "
-        "random sample of longer histories over a wider numeric range. Non-trivial = the structure is non-empty at "
+        "operation: iteration strictly ascending and == sorted(reference), len. At the end of every history (every "
+        "prefix is itself an enumerated history) and after every operation of the random histories: membership / "
+        "lookup / get of every numeric probe, every foreign probe -> False / KeyError / default with the content "
+        "unchanged. Then a seeded random sample of longer histories over a wider numeric range. Non-trivial = the structure is non-empty at "
         "some point or is built from a non-empty initialiser; distinct = canonical JSON.")
 
 
@@ -61,8 +62,7 @@ def cases(tier, seed):
     yield {"kind": "map-init", "init": None, "container": "none"}
     for kind, inits, ops in (("set-history", SET_INITS, SET_OPS), ("map-history", MAP_INITS, MAP_OPS)):
         hb = b[kind.replace("-", "_")]
-        for j, init in enumerate(inits):
-            n = hb["len"] if init in hb["initial"] else hb["len_for_3rd_initial"]
+        for init, n in zip(inits, hb["len_per_initial"]):
             for o in _seqs(ops, n):
                 yield {"kind": kind, "init": init, "ops": o}
     rng = random.Random(seed)
@@ -76,7 +76,8 @@ def cases(tier, seed):
                 op = rng.choice(["add", "add", "discard", "remove", "pop", "in", "remove"])
                 ops.append([op] if op == "pop" else [op, rng.choice(vs + ["str", "none", "tuple"]) if op in ("in", "remove")
                                                      else rng.choice(vs)])
-            yield {"kind": "set-history", "init": [rng.choice(vs) for _ in range(rng.randint(0, 5))], "ops": ops}
+            yield {"kind": "set-history", "init": [rng.choice(vs) for _ in range(rng.randint(0, 5))], "ops": ops,
+                   "probes": "every"}
         else:
             ops = []
             for _ in range(n):
@@ -86,7 +87,8 @@ def cases(tier, seed):
                 else:
                     ops.append([op, rng.choice(vs + ["str", "none", "list"]) if op in ("get", "in", "pop", "del", "popd")
                                 else rng.choice(vs)])
-            yield {"kind": "map-history", "init": [[rng.choice(vs), f"i{i}"] for i in range(rng.randint(0, 5))], "ops": ops}
+            yield {"kind": "map-history", "init": [[rng.choice(vs), f"i{i}"] for i in range(rng.randint(0, 5))], "ops": ops,
+                   "probes": "every"}
 
 
 # ---------------------------------------------------------------------------------------------------------------
@@ -238,7 +240,7 @@ def _run_set_history(case):
             raise ValueError(f"unknown op {op}")
         nonempty = nonempty or bool(ref)
         _set_state(s, ref, o)
-        if not case.get("light"):
+        if case.get("probes") == "every" or i == len(case["ops"]) - 1:
             _set_probes(s, ref, o)
     return ok("sortedset/history", trivial=not nonempty)
 
@@ -293,7 +295,7 @@ def _run_map_history(case):
             raise ValueError(f"unknown op {op}")
         nonempty = nonempty or bool(ref)
         _map_state(m, ref, o)
-        if not case.get("light"):
+        if case.get("probes") == "every" or i == len(case["ops"]) - 1:
             _map_probes(m, ref, o)
     return ok("sortedmap/history", trivial=not nonempty)
 
